@@ -1,22 +1,41 @@
 #!/bin/bash
-# Re-verify every stored seed against /repo HEAD (scratch worktrees), then run each against its property's check
-# (scratch worktree + own build/output dirs: /repo, /verif/.build and /verif/evidence are not touched).
-# Writes /verif/seeded/SUMMARY.json.
+# Run every stored seed (or the ones named) against its property's quick check, in scratch worktrees with their own build /
+# output directories (/repo, /verif/.build and /verif/evidence are not touched).  Writes /verif/seeded/SUMMARY.json.
+#   VERIFY=1  also re-verify each seed first (applies to HEAD, 137 tests pass, its demo passes on HEAD and fails on the change)
+#   PAR=n     seeds in parallel (default 3)
 cd /verif
 ids=${*:-$(ls seeded | grep -E '^C[0-9]+-m[0-9]+$' | sort)}
 mkdir -p /tmp/sweep
-echo "$ids" | tr ' ' '\n' | xargs -P 3 -I{} bash -c 'rm -rf /tmp/sweep/{}; cp -r /verif/seeded/{} /tmp/sweep/{}; tools/verify_seed.sh /tmp/sweep/{} {}.chk > /tmp/sweep/{}.verify 2>&1; rm -rf /verif/seeded/{}.chk /tmp/sweep/{}
-  if grep -q "KEPT" /tmp/sweep/{}.verify && ! grep -q "NOT KEPT" /tmp/sweep/{}.verify; then tools/run_seed.sh {} > /tmp/sweep/{}.run 2>&1; else echo "{}: STALE (does not verify against HEAD)" > /tmp/sweep/{}.run; fi
-  tail -3 /tmp/sweep/{}.verify | head -1; head -1 /tmp/sweep/{}.run'
+one() {
+  id=$1
+  if [ -n "${VERIFY:-}" ]; then
+    rm -rf /tmp/sweep/$id; cp -r /verif/seeded/$id /tmp/sweep/$id
+    tools/verify_seed.sh /tmp/sweep/$id $id.chk > /tmp/sweep/$id.verify 2>&1
+    rm -rf /verif/seeded/$id.chk /tmp/sweep/$id
+  else
+    echo "$id: KEPT (not re-verified in this sweep)" > /tmp/sweep/$id.verify
+  fi
+  if grep -q "KEPT" /tmp/sweep/$id.verify && ! grep -q "NOT KEPT" /tmp/sweep/$id.verify; then
+    tools/run_seed.sh $id > /tmp/sweep/$id.run 2>&1
+  else
+    echo "$id: STALE (does not verify against HEAD)" > /tmp/sweep/$id.run
+  fi
+  head -1 /tmp/sweep/$id.run
+}
+export -f one
+echo "$ids" | tr ' ' '\n' | xargs -P ${PAR:-3} -I{} bash -c 'one {}'
 python3 - <<'PY'
 import json,os,re
 out=[]
 for id in sorted(os.listdir('/verif/seeded')):
     if not re.match(r'^C\d+-m\d+$', id): continue
     v=open('/tmp/sweep/%s.verify'%id).read() if os.path.exists('/tmp/sweep/%s.verify'%id) else ''
+    run=open('/tmp/sweep/%s.run'%id).read() if os.path.exists('/tmp/sweep/%s.run'%id) else ''
     res=json.load(open('/verif/seeded/%s/result.json'%id)) if os.path.exists('/verif/seeded/%s/result.json'%id) else {}
     meta=json.load(open('/verif/seeded/%s/meta.json'%id))
-    out.append({"seed":id,"property":id.split('-')[0],"verifies_against_head":("KEPT" in v and "NOT KEPT" not in v) if v else None,
+    out.append({"seed":id,"property":id.split('-')[0],
+                "patch_applies_to_head": ("patch does not apply" not in run and "STALE" not in run) if run else None,
+                "reverified_in_this_sweep": (None if "not re-verified" in v or not v else ("KEPT" in v and "NOT KEPT" not in v)),
                 "detected_by_quick_check":res.get("detected"),"violation_classes":res.get("violation_classes"),
                 "mech_drift_lines":res.get("mech_drift_lines"),"summary":meta.get("summary","")[:200]})
 json.dump(out,open('/verif/seeded/SUMMARY.json','w'),indent=1)
